@@ -298,14 +298,19 @@ Definition spec_aobs (z : zone) (qe : rname) (qtype qclass : N) (o : aobs) : boo
   else if fst o =? 10 then (qclass =? zone_class) && nodata_true_b z qe qtype
   else true.
 
-Definition spec_nprobe (z : zone) (exact_ok aggr_ok : bool) (p : nprobe) : bool :=
+(* the aggressive verdicts are judged against the zone when every record the evaluator saw is a genuine
+   record of the zone (aggr_ok), and also (mix_ok, session 4) when the rest of them are records of other
+   zones confined to the subtrees below the zone's own cut owners [ds] — a child zone's chain replayed
+   into the parent's answer — and the question lies outside those subtrees
+   (Properties.aggressive_nsec_sound_foreign_subtrees is the statement judged) *)
+Definition spec_nprobe (z : zone) (exact_ok aggr_ok mix_ok : bool) (ds : list rname) (p : nprobe) : bool :=
   let qe := canon (effective_qname (p_q p) (p_dname p)) in
   if negb (prefix_b (z_apex z) qe) then true else
   (negb exact_ok ||
      ((negb (p_ne p =? 0) || negb (exists_in_b z qe)) &&
       (negb (p_nd p =? 0) || nodata_true_b z qe (p_qtype p)) &&
       (negb (p_dl p =? 0) || insecure_delegation_b z (canon (p_q p))))) &&
-  (negb aggr_ok ||
+  (negb (aggr_ok || (mix_ok && outside_b ds qe)) ||
      (spec_aobs z qe (p_qtype p) (p_qclass p) (p_ag p) &&
       spec_aobs z qe (p_qtype p) (p_qclass p) (p_agp p) &&
       spec_aobs z qe (p_qtype p) (p_qclass p) (p_ags p))).
@@ -356,6 +361,9 @@ Definition spec_case (c : case) : bool :=
       let keptrecs := filter (fun r => existsb (N.eqb (N.of_nat (c_idx r))) kept) cs in
       if negb (zone_wf_b z && rname_eqb (canon signer) (z_apex z)) then true else
       let exact_ok := forallb (genuine_b z) keptrecs in
-      let aggr_ok := forallb (fun r => genuine_b z r && (c_class r =? zone_class)) (if prefilter then keptrecs else cs) in
-      forallb (spec_nprobe z exact_ok aggr_ok) probes
+      let aggr_in := if prefilter then keptrecs else cs in
+      let aggr_ok := forallb (fun r => genuine_b z r && (c_class r =? zone_class)) aggr_in in
+      let ds := mix_roots z in
+      let mix_ok := forallb (fun r => (genuine_b z r || confined_b ds r) && (c_class r =? zone_class)) aggr_in in
+      forallb (spec_nprobe z exact_ok aggr_ok mix_ok ds) probes
   end.
